@@ -9,10 +9,19 @@
   NOT proved (the lookup interpreter is not modelled here); the end-to-end sentence of the property is carried by the
   break-safety verifier through shape() in tools/props/C03.py.
 
+  Second part (`C03_set_cluster_flags` … `C03_merge_out_renamed_no_flags`): what happens to the flags when a cluster primitive
+  RENAMES a glyph.  The flag on the first glyph of cluster c governs the boundary at the text start of c, so a primitive that
+  changes cluster values decides which boundary the old flags now speak about.  `delete_glyph` in a descending buffer hands the
+  deleted glyph's flags to the run that takes over its cluster value (the boundary at the start of c is still there);
+  every other path (`merge_clusters`, `merge_out_clusters`, the forward merge of `delete_glyph`) clears the flags of a renamed
+  glyph and leaves every other glyph alone, as HarfBuzz does.  `delete_glyphs_inplace` repeats the same branches in place; its
+  contract is checked by the `flags-carry` correspondence and the `carry-exact` oracle only (tools/props/C03.py).
+
   `Upd l l' p q test upd`: `l'` is `l` with `upd` applied to exactly the entries `p ≤ j < q` that pass `test`
   (same length, everything else untouched).  `neCl m x` = "cluster of x differs from m", `orMask f x` = `x.mask |= f`.
 -/
 import RbModel.Lemmas.Flags
+import RbModel.Lemmas.FlagCarry
 
 namespace RbModel.Flags
 
@@ -161,5 +170,187 @@ theorem C03_propagate (b : Buf) (hlen : b.len ≤ b.info.length) (hsc : b.scratc
 example : ∃ b : Buf, b.len ≤ b.info.length ∧ b.scratch &&& SCRATCH_HAS_GLYPH_FLAGS ≠ 0 :=
   ⟨{ info := [{ mask := 3 }, {}], len := 2, scratch := 0x20 }, by decide, by decide⟩
 
+/-! ### renamed glyphs: who carries the flags afterwards -/
+
+/-- **set_cluster(info, cluster, mask)**: a glyph whose cluster value does not change keeps its whole mask; a glyph that is
+    renamed keeps every non-flag bit of its mask and exposes exactly the flag bits of `mask` — its own flags are gone. -/
+theorem C03_set_cluster_flags (x : Info) (c mask : Nat) :
+    (Buf.setCluster x c mask).cluster = c ∧
+    (x.cluster = c → Buf.setCluster x c mask = x) ∧
+    (x.cluster ≠ c →
+      exposed (Buf.setCluster x c mask) = mask &&& Flag.DEFINED ∧
+      (Buf.setCluster x c mask).mask &&& (U32MAX - Flag.DEFINED) = x.mask &&& (U32MAX - Flag.DEFINED) ∧
+      Buf.setCluster x c mask = { x with cluster := c, mask := (Buf.setCluster x c mask).mask }) := by
+  refine ⟨rfl, Buf.setCluster_same x c mask, ?_⟩
+  intro h
+  rw [Buf.setCluster_ne x c mask h]
+  exact ⟨Buf.renamed_flags _ _, Buf.renamed_rest _ _, rfl⟩
+
+/-- **delete_glyph, "Merge cluster backward"** (the state of a buffer that is shaped reversed: clusters descend).  The current
+    glyph `cur` is alone in its cluster (the next glyph has another cluster value) and the last glyph `p` of the out-buffer has
+    a LARGER cluster value.  Then: no panic; the maximal run `[k, out_len)` of the out-buffer with `p`'s cluster value is
+    renamed to `cur`'s cluster, every glyph of it keeps its non-flag mask bits and carries EXACTLY the glyph flags of the
+    deleted glyph (`mask = (mask & !DEFINED) | (cur.mask & DEFINED)`); every other entry of the out-buffer (and, in shared
+    mode, of `info`) is untouched; the glyph is skipped.  So an UNSAFE_TO_BREAK / UNSAFE_TO_CONCAT that sat on the deleted
+    glyph is still exposed by the cluster that took its place.  Both output modes, every level, every length. -/
+theorem C03_delete_backward_carries_flags (b : Buf) (hwf : Buf.WF b) (hcur : b.idx < b.len) (ho : b.outLen ≠ 0)
+    (cur p : Info) (hc : b.info[b.idx]? = some cur) (hp : b.outArr[b.outLen - 1]? = some p)
+    (hnext : ∀ nx, b.idx + 1 < b.len → b.info[b.idx + 1]? = some nx → nx.cluster ≠ cur.cluster)
+    (hlt : cur.cluster < p.cluster) :
+    ∃ o k, b.deleteGlyph = .ok (b.setOutArr o).skipGlyph ∧ k < b.outLen ∧ o.length = b.outArr.length ∧
+      (∀ q, k ≤ q → q < b.outLen → ∃ x, b.outArr[q]? = some x ∧ x.cluster = p.cluster ∧
+          o[q]? = some { x with cluster := cur.cluster,
+                                mask := (x.mask &&& (U32MAX - Flag.DEFINED)) ||| (cur.mask &&& Flag.DEFINED) }) ∧
+      (∀ q, ¬ (k ≤ q ∧ q < b.outLen) → o[q]? = b.outArr[q]?) ∧
+      (k = 0 ∨ Buf.cl? b.outArr (k - 1) ≠ some p.cluster) ∧
+      (∀ q x', k ≤ q → q < b.outLen → o[q]? = some x' → x'.cluster = cur.cluster ∧ exposed x' = exposed cur) := by
+  have hlen := hwf.len_le
+  have hcap := hwf.out_cap
+  have hi : b.idx < b.info.length := by omega
+  have hpl : b.outLen - 1 < b.outArr.length := by omega
+  have hcur' : b.info[b.idx] = cur := by
+    have := List.getElem?_eq_getElem hi; rw [this] at hc; exact Option.some.inj hc
+  have hp' : b.outArr[b.outLen - 1] = p := by
+    have := List.getElem?_eq_getElem hpl; rw [this] at hp; exact Option.some.inj hp
+  have hnx : ∀ h : b.idx + 1 < b.info.length, b.idx + 1 < b.len → b.info[b.idx].cluster ≠ b.info[b.idx + 1].cluster := by
+    intro h hn heq
+    exact hnext b.info[b.idx + 1] hn (List.getElem?_eq_getElem h) (by rw [← heq, hcur'])
+  have heq := Buf.deleteGlyph_backward b hwf hcur ho hi hpl hnx (by rw [hcur', hp']; exact hlt)
+  rw [hcur', hp'] at heq
+  obtain ⟨o, k, hr, hk, holen, hoq, hrun, hstop⟩ :=
+    Buf.relabelOutBack_spec p.cluster cur.cluster cur.mask b.outLen b.outArr hcap
+  have hk1 : k < b.outLen := by
+    rcases hstop with h | h
+    · omega
+    · by_cases h2 : k < b.outLen
+      · exact h2
+      · exfalso
+        have : k = b.outLen := by omega
+        rw [this] at h
+        exact h (Buf.cl?_of_get hp)
+  have hin : ∀ q, k ≤ q → q < b.outLen → ∃ x, b.outArr[q]? = some x ∧ x.cluster = p.cluster ∧
+      o[q]? = some { x with cluster := cur.cluster,
+                            mask := (x.mask &&& (U32MAX - Flag.DEFINED)) ||| (cur.mask &&& Flag.DEFINED) } := by
+    intro q h1 h2
+    have hql : q < b.outArr.length := by omega
+    have hxq : b.outArr[q]? = some b.outArr[q] := List.getElem?_eq_getElem hql
+    have hcl : b.outArr[q].cluster = p.cluster := by
+      have := hrun q h1 h2
+      rw [Buf.cl?_lt hql] at this
+      exact Option.some.inj this
+    refine ⟨b.outArr[q], hxq, hcl, ?_⟩
+    rw [hoq q, if_pos ⟨h1, h2⟩, hxq]
+    simp only [Option.map_some]
+    rw [Buf.setCluster_ne _ _ _ (by rw [hcl]; omega)]
+  refine ⟨o, k, by rw [heq, hr]; rfl, hk1, holen, hin, ?_, hstop, ?_⟩
+  · intro q hq
+    rw [hoq q, if_neg hq]
+  · intro q x' h1 h2 hx'
+    obtain ⟨x, _, _, hox⟩ := hin q h1 h2
+    rw [hox] at hx'
+    have := Option.some.inj hx'
+    subst this
+    exact ⟨rfl, Buf.renamed_flags _ _⟩
+
+example : ∃ (b : Buf) (cur p : Info), Buf.WF b ∧ b.idx < b.len ∧ b.outLen ≠ 0 ∧ b.info[b.idx]? = some cur ∧
+    b.outArr[b.outLen - 1]? = some p ∧
+    (∀ nx, b.idx + 1 < b.len → b.info[b.idx + 1]? = some nx → nx.cluster ≠ cur.cluster) ∧ cur.cluster < p.cluster := by
+  refine ⟨{ info := [{ gid := 3, cluster := 2 }, { gid := 2, cluster := 1, mask := 3 }, { gid := 1, cluster := 0 }],
+            len := 3, idx := 1, outLen := 1, haveOutput := true },
+          { gid := 2, cluster := 1, mask := 3 }, { gid := 3, cluster := 2 },
+          ⟨by decide, by decide, by simp, by decide⟩, by decide, by decide, rfl, rfl, ?_, by decide⟩
+  intro nx _ h
+  simp at h
+  subst h
+  decide
+
+/-- the seeded situation as a closed instance: text a b c shaped right-to-left is c(2) b(1) a(0); b carries BREAK|CONCAT and is
+    deleted after c went to the out-buffer: c is renamed to cluster 1 and exposes b's flags -/
+theorem C03_delete_backward_witness :
+    (({ info := [{ gid := 3, cluster := 2 }, { gid := 2, cluster := 1, mask := 3 }, { gid := 1, cluster := 0 }],
+        len := 3, idx := 1, outLen := 1, haveOutput := true } : Buf).deleteGlyph).map
+      (fun b => (b.info.map (fun x => (x.cluster, exposed x)), b.idx, b.outLen))
+      = .ok ([(1, 3), (1, 3), (0, 0)], 2, 1) := by rfl
+
+/-- **delete_glyph, every other case with a non-empty out-buffer or a surviving cluster**: when the next glyph or the last
+    out-buffer glyph shares the deleted glyph's cluster value ("Cluster survives") or the last out-buffer glyph has a SMALLER
+    cluster value (ascending buffer: the boundary at the deleted cluster disappears), nothing but the skip happens — no
+    cluster value and no mask of a kept glyph changes (in particular the deleted glyph's own flags are dropped). -/
+theorem C03_delete_keeps (b : Buf) (hwf : Buf.WF b) (hcur : b.idx < b.len)
+    (h : (b.idx + 1 < b.len ∧ Buf.cl? b.info (b.idx + 1) = Buf.cl? b.info b.idx) ∨
+         (b.outLen ≠ 0 ∧ Buf.cl? b.outArr (b.outLen - 1) = Buf.cl? b.info b.idx) ∨
+         (b.outLen ≠ 0 ∧ ∃ p c, Buf.cl? b.outArr (b.outLen - 1) = some p ∧ Buf.cl? b.info b.idx = some c ∧ p < c)) :
+    b.deleteGlyph = .ok b.skipGlyph := by
+  obtain ⟨b1, heq, hcase⟩ := Buf.deleteGlyph_cases b hwf hcur
+  rcases hcase with ⟨hb1, _⟩ | ⟨ho, hnn, p, c, mask, hp, hc, hlt, _⟩ | ⟨ho, hn, hne, _⟩
+  · rw [heq, hb1]; rfl
+  · exfalso
+    rcases h with h | ⟨_, h⟩ | ⟨_, p', c', hp', hc', hlt'⟩
+    · exact hnn h
+    · rw [hp, hc] at h; have := Option.some.inj h; omega
+    · rw [hp] at hp'; rw [hc] at hc'
+      have := Option.some.inj hp'; have := Option.some.inj hc'; omega
+  · exfalso
+    rcases h with h | ⟨h, _⟩ | ⟨h, _⟩
+    · exact hne h.2
+    · exact h ho
+    · exact h ho
+
+example : ∃ b : Buf, Buf.WF b ∧ b.idx < b.len ∧ b.outLen ≠ 0 ∧
+    ∃ p c, Buf.cl? b.outArr (b.outLen - 1) = some p ∧ Buf.cl? b.info b.idx = some c ∧ p < c :=
+  ⟨{ info := [{ cluster := 0 }, { cluster := 1 }], len := 2, idx := 1, outLen := 1, haveOutput := true },
+    ⟨by decide, by decide, by simp, by decide⟩, by decide, by decide, 0, 1, rfl, rfl, by decide⟩
+
+/-- **merge_clusters(s, e)** at levels 0 and 1 (the routine behind ligatures, the forward merge of `delete_glyph`, reordering):
+    no panic, and every glyph of the logical sequence (out-buffer followed by the unconsumed input) is either untouched or
+    renamed to the range's minimum cluster `m` with ALL its glyph flags cleared and every other field kept — a merge never hands
+    flags on (`set_cluster(.., cluster, 0)`, as in HarfBuzz).  `C03_gen_extend_start` is the source variant this needs. -/
+theorem C03_merge_renamed_no_flags (b : Buf) (s e : Nat) (hwf : Buf.WF b) (hs : b.idx ≤ s) (hse : s + 2 ≤ e) (he : e ≤ b.len)
+    (hl : b.level ≠ 2) (hg : Gen.Buf.extendStartGuard = 1) :
+    ∃ b' m, b.mergeClusters s e = .ok b' ∧ (Buf.lview b').length = (Buf.lview b).length ∧
+      ∀ (q : Nat) (x : Info), (Buf.lview b)[q]? = some x →
+        (Buf.lview b')[q]? = some x ∨
+        (x.cluster ≠ m ∧ (Buf.lview b')[q]? = some { x with cluster := m, mask := x.mask &&& (U32MAX - Flag.DEFINED) }) := by
+  obtain ⟨b', m, hr, _, hm⟩ := Buf.mergeClusters_isMerge b s e hwf hs hse he hl hg
+  exact ⟨b', m, hr, hm.len, fun q x hx => hm.pointwise q x hx⟩
+
+/-- the extend-start guard of `merge_clusters_impl` is HarfBuzz's (`idx < start`; generated from the source, D4) -/
+theorem C03_gen_extend_start : Gen.Buf.extendStartGuard = 1 := by decide
+
+/-- **merge_out_clusters(s, e)**: the same for the out-buffer variant -/
+theorem C03_merge_out_renamed_no_flags (b : Buf) (s e : Nat) (hwf : Buf.WF b) (hse : s + 2 ≤ e) (he : e ≤ b.outLen)
+    (hl : b.level ≠ 2) :
+    ∃ b' m, b.mergeOutClusters s e = .ok b' ∧ (Buf.lview b').length = (Buf.lview b).length ∧
+      ∀ (q : Nat) (x : Info), (Buf.lview b)[q]? = some x →
+        (Buf.lview b')[q]? = some x ∨
+        (x.cluster ≠ m ∧ (Buf.lview b')[q]? = some { x with cluster := m, mask := x.mask &&& (U32MAX - Flag.DEFINED) }) := by
+  obtain ⟨b', m, hr, _, hm⟩ := Buf.mergeOutClusters_isMerge b s e hwf hse he hl
+  exact ⟨b', m, hr, hm.len, fun q x hx => hm.pointwise q x hx⟩
+
+example : ∃ (b : Buf) (s e : Nat), Buf.WF b ∧ b.idx ≤ s ∧ s + 2 ≤ e ∧ e ≤ b.len ∧ b.level ≠ 2 :=
+  ⟨{ info := [{ cluster := 1, mask := 3 }, { cluster := 0 }], len := 2 }, 0, 2,
+    ⟨by decide, by decide, by simp, by decide⟩, by decide, by decide, by decide, by decide⟩
+
+/-- **delete_glyph, "Merge cluster forward"**: nothing was output yet and the next glyph has another cluster value — the
+    routine is `merge_clusters(idx, idx + 2)` followed by the skip, so by `C03_merge_renamed_no_flags` the glyph that takes over
+    the smaller cluster value carries no flags (when it is the deleted glyph that is renamed, it is dropped anyway). -/
+theorem C03_delete_forward_is_merge (b : Buf) (hwf : Buf.WF b) (hcur : b.idx < b.len) (ho : b.outLen = 0)
+    (hn : b.idx + 1 < b.len) (hne : Buf.cl? b.info (b.idx + 1) ≠ Buf.cl? b.info b.idx) :
+    b.deleteGlyph = (b.mergeClusters b.idx (b.idx + 2) >>= fun b1 => pure b1.skipGlyph) := by
+  obtain ⟨b1, heq, hcase⟩ := Buf.deleteGlyph_cases b hwf hcur
+  rcases hcase with ⟨_, h⟩ | ⟨ho', _⟩ | ⟨_, _, _, hb1⟩
+  · exfalso
+    rcases h with h | ⟨h, _⟩ | ⟨h, _⟩ | ⟨_, h⟩
+    · exact hne h.2
+    · exact h ho
+    · exact h ho
+    · omega
+  · exact absurd ho ho'
+  · rw [heq, hb1]
+
+example : ∃ b : Buf, Buf.WF b ∧ b.idx < b.len ∧ b.outLen = 0 ∧ b.idx + 1 < b.len ∧
+    Buf.cl? b.info (b.idx + 1) ≠ Buf.cl? b.info b.idx :=
+  ⟨{ info := [{ cluster := 1 }, { cluster := 0 }], len := 2, haveOutput := true },
+    ⟨by decide, by decide, by simp, by decide⟩, by decide, rfl, by decide, by decide⟩
 
 end RbModel.Flags
